@@ -58,6 +58,13 @@ static std::string hexdec(const std::string &h) {
 }
 static std::string fd(double v) { char b[64]; snprintf(b, sizeof b, "%a", v); return b; }
 
+// threads mode: crystals built from a token are shared between the threads (one object per distinct token), as a program would share a crystal it
+// built once - every thread only reads it.  "g:" = cell with its volume filled in, "h:" = the same left at volume 0 (a hand-made struct).
+struct SharedCrystal { Crystal_Struct cs; std::vector<Crystal_Atom> atoms; std::string name; };
+static bool g_share_user_crystals = false;
+static pthread_mutex_t g_shared_mutex = PTHREAD_MUTEX_INITIALIZER;
+static std::vector<std::pair<std::string, SharedCrystal *>> g_shared;
+
 struct Ctx {
   std::vector<std::string> tok;
   size_t pos = 1;
@@ -100,7 +107,14 @@ struct Ctx {
       if (cs) builtin_crystals.push_back(cs);
       return cs;
     }
-    // g:a;b;c;al;be;ga|Z,f,x,y,z|...
+    // g:a;b;c;al;be;ga|Z,f,x,y,z|...     (h: = the same with volume left at 0)
+    if (g_share_user_crystals) {
+      pthread_mutex_lock(&g_shared_mutex);
+      SharedCrystal *found = NULL;
+      for (auto &e : g_shared) if (e.first == t) found = e.second;
+      pthread_mutex_unlock(&g_shared_mutex);
+      if (found) return &found->cs;
+    }
     user_crystals.reserve(8); user_atoms.reserve(8); user_names.reserve(8);
     Crystal_Struct cs;
     std::vector<Crystal_Atom> atoms;
@@ -125,12 +139,24 @@ struct Ctx {
     cs.n_atom = (int) user_atoms.back().size();
     cs.atom = user_atoms.back().data();
     cs.volume = 0;
-    cs.volume = Crystal_UnitCellVolume(&cs, NULL);
+    if (t[0] != 'h') cs.volume = Crystal_UnitCellVolume(&cs, NULL);
+    if (g_share_user_crystals) {
+      SharedCrystal *sc = new SharedCrystal;
+      sc->atoms = user_atoms.back(); sc->name = "generated"; sc->cs = cs;
+      sc->cs.name = (char *) sc->name.c_str(); sc->cs.atom = sc->atoms.data();
+      pthread_mutex_lock(&g_shared_mutex);
+      SharedCrystal *found = NULL;
+      for (auto &e : g_shared) if (e.first == t) found = e.second;
+      if (!found) { g_shared.push_back(std::make_pair(t, sc)); found = sc; } else delete sc;
+      pthread_mutex_unlock(&g_shared_mutex);
+      return &found->cs;
+    }
     user_crystals.push_back(cs);
     return &user_crystals.back();
   }
-  double *outd() { skip(); od[nod] = -777.25; return &od[nod++]; }
-  int *outi() { skip(); oi[noi] = -777; return &oi[noi++]; }
+  // out parameters: token "-" = a slot of the harness (reported as ;od= / ;oi=), token "N" = NULL (the C functions accept NULL for double* / int* outs)
+  double *outd() { if (next() == "N") return NULL; od[nod] = -777.25; return &od[nod++]; }
+  int *outi() { if (next() == "N") return NULL; oi[noi] = -777; return &oi[noi++]; }
   xrlComplex *outc() { skip(); oc[noc].re = oc[noc].im = -777.25; return &oc[noc++]; }
   xrl_error **err() {
     if (mode == 1) return NULL;
@@ -281,6 +307,40 @@ static void call_addcrystal(Ctx &c) {
   int mode = c.geti();
   Crystal_Struct *si = Crystal_GetCrystal("Si", NULL, NULL);
   if (!si) { c.result = "add:nosi"; return; }
+  if (mode == 3 || mode == 4) {
+    // fill the built-in collection to capacity-1, then read a 3-crystal file into it (mode 3: must be refused cleanly), or fill it completely and
+    // add one more without an error slot (mode 4: must be refused as well)
+    for (int k = 0; k < 10 * CRYSTALARRAY_MAX; k++) {
+      int n = 0; char **l = Crystal_GetCrystalsList(NULL, &n, NULL);
+      if (l) { for (int i = 0; l[i]; i++) xrlFree(l[i]); xrlFree(l); }
+      if (n >= CRYSTALARRAY_MAX - (mode == 3 ? 1 : 0)) break;
+      char nm[32]; snprintf(nm, sizeof nm, "zz_fill_%04d", k);
+      char *old = si->name; si->name = nm;
+      int rv = Crystal_AddCrystal(si, NULL, NULL);
+      si->name = old;
+      if (rv != 1) { c.result = "add:fill-failed"; Crystal_Free(si); return; }
+    }
+    if (mode == 3) {
+      char path[256];
+      snprintf(path, sizeof path, "%s/xrlv.add3.%d.dat", getenv("VERIF_TMP") ? getenv("VERIF_TMP") : "/var/tmp", (int) getpid());
+      FILE *f = fopen(path, "w");
+      if (!f) { c.result = "add:nofile"; Crystal_Free(si); return; }
+      for (int k = 0; k < 3; k++) fprintf(f, "#S 14 FromFile%d\n#UCELL 5 5 5 90 90 90\n#N 5\n#L Z F X Y Z\n14 1.0 0 0 0\n", k);
+      fputs("#EOF\n", f);
+      fclose(f);
+      c.ret_i(Crystal_ReadFile(path, NULL, c.err()));
+      unlink(path);
+    } else {
+      char extra[] = "one_too_many"; char *old = si->name; si->name = extra;
+      int rv = Crystal_AddCrystal(si, NULL, NULL);      // no error slot
+      si->name = old;
+      int n = 0; char **l = Crystal_GetCrystalsList(NULL, &n, NULL);
+      if (l) { for (int i = 0; l[i]; i++) xrlFree(l[i]); xrlFree(l); }
+      c.result = "add4:rv=" + std::to_string(rv) + ";n=" + std::to_string(n) + ";cap=" + std::to_string(CRYSTALARRAY_MAX);
+    }
+    Crystal_Free(si);
+    return;
+  }
   if (mode == 1) {
     for (int k = 0; k < 10 * CRYSTALARRAY_MAX; k++) {
       int n = 0; char **l = Crystal_GetCrystalsList(NULL, &n, NULL);
@@ -559,6 +619,7 @@ int main(int argc, char **argv) {
       fputs(r.c_str(), out); fputc('\n', out);
     }
   } else if (mode.rfind("threads:", 0) == 0) {
+    g_share_user_crystals = true;
     size_t T = (size_t) atoi(mode.c_str() + 8);
     const char *p = strchr(mode.c_str() + 8, ':');
     unsigned ys = p ? (unsigned) atoi(p + 1) : 0;
